@@ -1,4 +1,179 @@
-import BoboVerif.Model.Decider
-/-! C05 — placeholder header; theorems follow. -/
+import BoboVerif.Props.C04
+import BoboVerif.Model.Engine
+/-!
+C05 — A finished run stays finished: at most one complex event per run and instance.
+
+With finished-run memory enabled and not evicting (as the property states):
+the status of every run key never decreases under a remote update
+(`status_monotone_remote`, from `remote_is_join`) — in particular a run that
+is remembered as halted or completed is never created or advanced again by any
+later, stale, merged or repeated message (`finished_never_recreated`); a run is
+reported completed by a remote update only if it was not remembered completed
+before, and is remembered afterwards (`completed_reported_once`); a completion
+learned from a peer is delivered with `local = false` and the forwarder with
+the default `local_only` enqueues nothing for it (`remote_completion_no_action`).
+The merged message called out by the property (one message naming a run as
+completed and as updated) is the instance `merged_message`.
+-/
 namespace Bobo.Decider
+open Bobo.Run Bobo.Lattice
+variable {ε : Type}
+
+/-- along every remote update the status of a key never decreases. -/
+theorem status_monotone_remote (c : Cfg ε) (hc : c.caching = true) (hns : NoSing c) (s s' : DState ε)
+    (n : Notif ε) (comp halt upd : List (Rec ε))
+    (hevC : s.cacheC.length + comp.length ≤ c.maxCache)
+    (hevH : s.cacheH.length + halt.length ≤ c.maxCache)
+    (hstep : remoteStep c s comp halt upd = some (s', n))
+    (ph pa id : String) (hk : (c.getPattern ph pa).isSome = true) :
+    abs s ph pa id ≤ abs s' ph pa id :=
+  progress_never_backwards c hc hns s s' n comp halt upd hevC hevH hstep ph pa id hk
+
+/-- once halted or completed, always at least that. -/
+theorem finished_stays_finished (c : Cfg ε) (hc : c.caching = true) (hns : NoSing c) (s s' : DState ε)
+    (n : Notif ε) (comp halt upd : List (Rec ε))
+    (hevC : s.cacheC.length + comp.length ≤ c.maxCache)
+    (hevH : s.cacheH.length + halt.length ≤ c.maxCache)
+    (hstep : remoteStep c s comp halt upd = some (s', n))
+    (ph pa id : String) (hk : (c.getPattern ph pa).isSome = true)
+    (hfin : halted ≤ abs s ph pa id) : halted ≤ abs s' ph pa id :=
+  le_trans hfin (status_monotone_remote c hc hns s s' n comp halt upd hevC hevH hstep ph pa id hk)
+
+/-- the special case called out by the property: ONE message naming the run as completed and as
+updated (what the backlog merge produces) completes it — the update is dropped. -/
+theorem merged_message (c : Cfg ε) (hc : c.caching = true) (hns : NoSing c) (s s' : DState ε)
+    (n : Notif ε) (r u : Rec ε) (hid : u.id = r.id)
+    (hevC : s.cacheC.length + 1 ≤ c.maxCache) (hevH : s.cacheH.length + 0 ≤ c.maxCache)
+    (hstep : remoteStep c s [r] [] [u] = some (s', n))
+    (ph pa : String) (hk : (c.getPattern ph pa).isSome = true) :
+    abs s' ph pa r.id = completed :=
+  completion_wins c hc hns s s' n [r] [] [u] (by simpa using hevC) (by simpa using hevH) hstep ph pa r.id hk
+    (by simp)
+
+/-- a run remembered as finished is never created or advanced by a remote update: whatever the
+message says, its table entry is afterwards absent or exactly what it was. -/
+theorem finished_never_recreated (c : Cfg ε) (hc : c.caching = true) (hns : NoSing c) (s s' : DState ε)
+    (n : Notif ε) (comp halt upd : List (Rec ε))
+    (hevC : s.cacheC.length + comp.length ≤ c.maxCache)
+    (hevH : s.cacheH.length + halt.length ≤ c.maxCache)
+    (hstep : remoteStep c s comp halt upd = some (s', n))
+    (ph pa id : String) (hk : (c.getPattern ph pa).isSome = true)
+    (hfin : inCache s.cacheC id = true ∨ inCache s.cacheH id = true) :
+    stOf (s'.table.runAt ph pa id) ≤ stOf (s.table.runAt ph pa id) := by
+  -- replay the phases of the step (as in `remote_is_join_aux`)
+  unfold remoteStep remoteStepG at hstep
+  simp only [checkAgainstCache, hc, if_true] at hstep
+  generalize hcomp1 : comp.filter (fun r => !inCache s.cacheC r.id) = comp1 at hstep
+  generalize hhalt1 : halt.filter (fun r => !inCache s.cacheC r.id && !inCache s.cacheH r.id) = halt1 at hstep
+  generalize hupd1 : upd.filter (fun r => !inCache s.cacheC r.id && !inCache s.cacheH r.id) = upd1 at hstep
+  have hl1 : comp1.length ≤ comp.length := by rw [← hcomp1]; exact List.length_filter_le _ _
+  have hl2 : halt1.length ≤ halt.length := by rw [← hhalt1]; exact List.length_filter_le _ _
+  rw [maybeCache_noevict c hc s comp1 halt1 (by omega) (by omega)] at hstep
+  generalize hs1 : ({ s with cacheC := s.cacheC ++ comp1, cacheH := s.cacheH ++ halt1 } : DState ε) = s1 at hstep
+  have hR2 := fold_removeOne_runAt c hns true comp1 s1 [] ph pa id
+  obtain ⟨hC2, hH2, _⟩ := fold_removeOne c hns true comp1 s1 []
+  generalize hf2 : comp1.foldl (removeOne c true) (s1, []) = st2 at hstep hR2 hC2 hH2
+  obtain ⟨s2, compOut⟩ := st2
+  simp only at hstep hR2 hC2 hH2
+  have hR3 := fold_removeOne_runAt c hns false halt1 s2 [] ph pa id
+  obtain ⟨hC3, hH3, _⟩ := fold_removeOne c hns false halt1 s2 []
+  generalize hf3 : halt1.foldl (removeOne c false) (s2, []) = st3 at hstep hR3 hC3 hH3
+  obtain ⟨s3, haltOut⟩ := st3
+  simp only at hstep hR3 hC3 hH3
+  generalize hupd2 : upd1.filter (fun r => !inCache s3.cacheC r.id && !inCache s3.cacheH r.id) = upd2 at hstep
+  obtain ⟨s4, updOut, hfold, _, _, hT4⟩ := fold_updateOne c hns upd2 s3 []
+  simp only [hfold, Option.some.injEq, Prod.mk.injEq] at hstep
+  obtain ⟨hs4, _⟩ := hstep
+  subst hs4
+  rw [hT4 ph pa id hk]
+  -- no record for this id survives the filters
+  have hnone : upd2.filter (keyMatch ph pa id) = [] := by
+    rw [List.filter_eq_nil_iff]
+    intro r hr hkm
+    have hid : r.id = id := ((keyMatch_iff ph pa id r).mp hkm).2.2.symm
+    rw [← hupd2, ← hupd1] at hr
+    have := (List.mem_filter.mp (List.mem_filter.mp hr).1).2
+    rw [hid] at this
+    rcases hfin with h | h <;> simp [h] at this
+  rw [hnone]
+  simp only [List.map_nil, joinAll, List.foldl_nil, join_bot_right]
+  have hs1t : s1.table = s.table := by rw [← hs1]
+  rcases hR3 with h3 | h3
+  · rw [h3]; exact bot_le _
+  · rw [h3]
+    rcases hR2 with h2 | h2
+    · rw [h2]; exact bot_le _
+    · rw [h2, hs1t]; exact le_refl _
+
+/-- **at most one complex event per run and instance**: a remote update reports a run completed only
+if it was not remembered completed before; afterwards it is remembered, so no later message — stale,
+merged or repeated — can report it again. -/
+theorem completed_reported_once (c : Cfg ε) (hc : c.caching = true) (hns : NoSing c) (s s' : DState ε)
+    (n : Notif ε) (comp halt upd : List (Rec ε))
+    (hevC : s.cacheC.length + comp.length ≤ c.maxCache)
+    (hevH : s.cacheH.length + halt.length ≤ c.maxCache)
+    (hstep : remoteStep c s comp halt upd = some (s', n)) :
+    ∀ r ∈ n.completed, inCache s.cacheC r.id = false ∧ inCache s'.cacheC r.id = true := by
+  unfold remoteStep remoteStepG at hstep
+  simp only [checkAgainstCache, hc, if_true] at hstep
+  generalize hcomp1 : comp.filter (fun r => !inCache s.cacheC r.id) = comp1 at hstep
+  generalize hhalt1 : halt.filter (fun r => !inCache s.cacheC r.id && !inCache s.cacheH r.id) = halt1 at hstep
+  generalize hupd1 : upd.filter (fun r => !inCache s.cacheC r.id && !inCache s.cacheH r.id) = upd1 at hstep
+  have hl1 : comp1.length ≤ comp.length := by rw [← hcomp1]; exact List.length_filter_le _ _
+  have hl2 : halt1.length ≤ halt.length := by rw [← hhalt1]; exact List.length_filter_le _ _
+  rw [maybeCache_noevict c hc s comp1 halt1 (by omega) (by omega)] at hstep
+  generalize hs1 : ({ s with cacheC := s.cacheC ++ comp1, cacheH := s.cacheH ++ halt1 } : DState ε) = s1 at hstep
+  have hO2 := fold_removeOne_out c hns true comp1 s1 []
+  obtain ⟨hC2, _, _⟩ := fold_removeOne c hns true comp1 s1 []
+  generalize hf2 : comp1.foldl (removeOne c true) (s1, []) = st2 at hstep hO2 hC2
+  obtain ⟨s2, compOut⟩ := st2
+  simp only at hstep hO2 hC2
+  obtain ⟨hC3, _, _⟩ := fold_removeOne c hns false halt1 s2 []
+  generalize hf3 : halt1.foldl (removeOne c false) (s2, []) = st3 at hstep hC3
+  obtain ⟨s3, haltOut⟩ := st3
+  simp only at hstep hC3
+  generalize hupd2 : upd1.filter (fun r => !inCache s3.cacheC r.id && !inCache s3.cacheH r.id) = upd2 at hstep
+  obtain ⟨s4, updOut, hfold, hC4, _, _⟩ := fold_updateOne c hns upd2 s3 []
+  simp only [hfold, Option.some.injEq, Prod.mk.injEq] at hstep
+  obtain ⟨hs4, hn⟩ := hstep
+  subst hs4 hn
+  intro r hr
+  simp only [List.nil_append] at hO2
+  rw [hO2] at hr
+  have hr1 : r ∈ comp1 := (List.mem_filter.mp hr).1
+  have hr0 := hr1
+  rw [← hcomp1] at hr0
+  refine ⟨by simpa using (List.mem_filter.mp hr0).2, ?_⟩
+  rw [hC4, hC3, hC2, ← hs1]
+  simp only [inCache_append, Bool.or_eq_true]
+  right
+  exact List.any_eq_true.mpr ⟨r, hr1, by simp⟩
+
+/-- what a remote update reports is never marked local … -/
+theorem remote_notification_not_local (c : Cfg ε) (hc : c.caching = true) (hns : NoSing c) (s s' : DState ε)
+    (n : Notif ε) (comp halt upd : List (Rec ε))
+    (hevC : s.cacheC.length + comp.length ≤ c.maxCache)
+    (hevH : s.cacheH.length + halt.length ≤ c.maxCache)
+    (hstep : remoteStep c s comp halt upd = some (s', n)) : n.loc = false := by
+  obtain ⟨s2, n2, h1, h2, _⟩ := remote_is_join_aux c hc hns s comp halt upd hevC hevH
+  rw [hstep] at h1
+  simp only [Option.some.injEq, Prod.mk.injEq] at h1
+  rw [h1.2]; exact h2
+
 end Bobo.Decider
+
+namespace Bobo.Engine
+variable {σ : Type}
+
+/-- … and the forwarder in its default configuration (`local_only = True`) enqueues nothing for a
+complex event that is not local: a completion learned from a peer produces the complex event but
+executes no action here.  (With `local_only = False` it does — `remote_completion_action_if_not_local_only`.) -/
+theorem remote_completion_no_action (P : Params σ) (e : Event) (s : St σ) (h : P.localOnly = true) :
+    deliverProd P e false s .forwarder = s := by
+  simp [deliverProd, h]
+
+theorem remote_completion_action_if_not_local_only (P : Params σ) (e : Event) (s : St σ) (h : P.localOnly = false) :
+    (deliverProd P e false s .forwarder).fq = s.fq ++ [e] := by
+  simp [deliverProd, h]
+
+end Bobo.Engine
